@@ -296,7 +296,11 @@ fn strip_numbers_in_panic(msg: &str) -> String {
 // monitors
 
 /// M17.2: every str reachable from a returned value is well-formed UTF-8.
-pub fn check_utf8_value(v: &Value, mon: &mut Mon, what: &str) {
+/// Returns false when an ill-formed str was found; the caller must then not
+/// format, compare or otherwise look into the value again (an ill-formed str is
+/// undefined behaviour waiting to happen), only drop it.
+pub fn check_utf8_value(v: &Value, mon: &mut Mon, what: &str) -> bool {
+    let mut well_formed = true;
     fn bad(s: &str) -> bool {
         std::str::from_utf8(std::hint::black_box(s.as_bytes())).is_err()
     }
@@ -310,6 +314,7 @@ pub fn check_utf8_value(v: &Value, mon: &mut Mon, what: &str) {
                         Value::Symbol(_) => "symbol",
                         _ => "keyword",
                     };
+                    well_formed = false;
                     mon.violate(
                         "C17",
                         "M17.2",
@@ -335,6 +340,7 @@ pub fn check_utf8_value(v: &Value, mon: &mut Mon, what: &str) {
             _ => {}
         }
     }
+    well_formed
 }
 
 /// Newline offsets of an input, computed on first use (an error storm on a
